@@ -68,4 +68,5 @@ Definition judge_integer (cfg : list Z) (op : Z) (args res : list Z) : verdict :
   if Z.eqb op OP_to_f32 then exact [f32_encode (num_of_Q (inject_Z (sgn n a)))] true else
   (* integer<n> -> integer<m>: cfg = [n; m] *)
   if Z.eqb op OP_conv then exact [i_conv n (nth0 cfg 1) a] true else
+  if Z.eqb op OP_to_f64_rt then (if Z.leb n 53 then exact [wrap n a] true else mkV true res false) else
   mkV false [] false.
